@@ -58,6 +58,16 @@ def generate(seed, tier="quick", mode=None, **kw):
                 for j, (c, a, b) in enumerate(grp[: r.choice([2, 3])]):
                     secrets[str(n0 + j)] = {"cls": c, "a": a, "b": b, "related": True}
                 break
+    if mode == "c07" and not odd_salt and r.random() < 0.25:
+        # same format class ($9$...), same length, but only one of the pair is a decodable Juniper encoding
+        n0 = len(secrets)
+        for j in range(r.randint(1, 2)):
+            P = G.gen_secret(r, "j9p")
+            good = G.j9_encode(P, r.choice(G.J9_ALPHA), r.choice("nQz7i"))
+            k = r.randint(6, len(good) - 2)
+            bad = good[:k] + r.choice("$!#") + good[k + 1:]
+            a, b = (good, bad) if r.random() < 0.5 else (bad, good)
+            secrets[str(n0 + j)] = {"cls": "j9mix", "a": a, "b": b}
     ctx = GC.make_ctx(r, o)
     nfiles = r.randint(1, 6)
     paths, dirs, _ = GC.gen_tree(r, nfiles, hidden=False, dirs=r.random() < 0.5)
@@ -127,6 +137,12 @@ def generate(seed, tier="quick", mode=None, **kw):
             plan["faults"].append({"kind": kind, "path": victim, "at": r.randint(0, 300)})
         else:
             plan["faults"].append({"kind": "vanish", "path": victim, "mode": "r", "nth": 1})
+    if mode == "c08" and r.random() < 0.15:
+        # a long-lived process: many earlier anonymizers over (parts of) the same lines, each released when done
+        alltext = [G.render_line(ln, "a", secrets) for f in files for ln in f["lines"] if not any(s[0] == "bad" for s in ln["segs"])]
+        for _ in range(r.randint(6, 14)):
+            sub = r.sample(alltext, r.randint(1, len(alltext))) if alltext else []
+            plan["pre"].append({"kind": "lines", "drop": True, "salt": o["salt"], "text": "".join(sub)})
     if mode == "c07":
         # unrelated earlier anonymizers in the same process (some reserve this run's secrets)
         for _ in range(r.choices([0, 1, 2, 3], [40, 30, 20, 10])[0]):
@@ -156,6 +172,9 @@ def _world(plan, which):
             disk["dirs"].append(W.mirror("in", "out", f["path"]))
     pre = []
     for it in plan["pre"]:
+        if it.get("kind") == "lines":
+            pre.append({"kind": "lines", "drop": it.get("drop"), "opts": dict(plan["opts"], salt=it["salt"]), "text": it["text"]})
+            continue
         reserved = []
         for x in it["reserved"]:
             reserved.append(plan["secrets"][x["secret"]][which] if "secret" in x else x["word"])
